@@ -666,3 +666,11 @@ case('benign-c10-rv-lerp-form', ['C09', 'C10', 'C04'], [],
 case('benign-c10-so3-dot-helper', ['C09', 'C10'], [],
      (SO3, "        let mut dot = from.x * to.x + from.y * to.y + from.z * to.z + from.w * to.w;\n\n        let sign = if dot < 0.0 { -1.0 } else { 1.0 };\n        dot *= sign;",
            "        let raw = from.x * to.x + from.y * to.y + from.z * to.z + from.w * to.w;\n        let (sign, dot) = if raw < 0.0 { (-1.0, -raw) } else { (1.0, raw) };"))
+case('benign-c04-rv-convex-form', ['C04', 'C10', 'C09'], [],
+     (RV, "out_state.values[i] = from.values[i] + (to.values[i] - from.values[i]) * t;",
+          "out_state.values[i] = (1.0 - t) * from.values[i] + t * to.values[i];"))
+case('c10-so3-lerp-no-renorm', ['C10'], ['C10.unit'],
+     (SO3, "            out_state.x /= norm;\n            out_state.y /= norm;\n            out_state.z /= norm;\n            out_state.w /= norm;",
+           "            let _ = norm;"))
+case('c10-so3-slerp-wrong-denominator', ['C10'], ['C10.unit'],
+     (SO3, "            let s0 = ((1.0 - t) * theta).sin() / sin_theta;", "            let s0 = ((1.0 - t) * theta).sin() / theta;"))
